@@ -1482,6 +1482,30 @@ class Gen:
         return self.p
 
 
+def _strip_marks(marked):
+    """text without the marks <D>..</D> (declaration), <U>..</U> (use), <S>..</S> (fault site); byte offsets of the marks"""
+    text, pos = "", {}
+    i = 0
+    while i < len(marked):
+        for tag in ("<D>", "</D>", "<U>", "</U>", "<S>", "</S>"):
+            if marked.startswith(tag, i):
+                pos[tag] = len(text.encode("utf-8"))
+                i += len(tag)
+                break
+        else:
+            text += marked[i]
+            i += 1
+    return text, pos
+
+
+def _marked_case(key, marked, extra_files=None):
+    """a directed case: /w/main.td = [marked] (one use and its declaration, both in main.td), plus unmarked other files"""
+    text, pos = _strip_marks(marked)
+    files = {"/w/main.td": text}
+    files.update(extra_files or {})
+    return {"key": key, "text": text, "files": files, "use": [pos["<U>"], pos["</U>"]], "decl": [pos["<D>"], pos["</D>"]]}
+
+
 # ---------------------------------------------------------------------------------------------------------
 # directed family: inheritance graphs in which an ancestor is reached a SECOND time before the parent that declares
 # the field (record.rs find_field_in / is_subclass_of_in walk the parents with a visited set: the second visit must be
@@ -1515,21 +1539,101 @@ def diamond_cases():
          "class Base { int b = 0; }\nclass Mixin { int <D>mixed</D> = 1; }\nclass Left : Base;\n"
          "class Right : Base, Mixin;\nclass P<int q> { int z = q; }\nclass Diamond : Left, Right, P<<U>mixed</U>>;\n"),
     ]
+    return [_marked_case(key, marked) for key, marked in shapes]
+
+
+# directed family: a class that is FORWARD-DECLARED (`class Reg;`, possibly in an included header) and defined later under the
+# same name: the later definition is the class the name denotes from then on (symbol_map.rs add_record: the newest record
+# of a name wins), so heirs, lets and field accesses see its fields.
+def forward_class_cases():
+    return [
+        _marked_case("forward-class-heir-def",
+                     "class Reg;\nclass Reg { int <D>width</D> = 32; }\ndef R0 : Reg { int half = <U>width</U>; }\n"),
+        _marked_case("forward-class-used-before-definition",
+                     "class Base;\nclass User { list<Base> bs = []; }\nclass Base { int <D>f</D> = 1; }\n"
+                     "class Heir : Base { int g = <U>f</U>; }\n"),
+        _marked_case("forward-class-def-let",
+                     "class Base;\nclass User { list<Base> bs = []; }\nclass Base { int <D>f</D> = 1; }\n"
+                     "class Heir : Base;\ndef D : Heir { let <U>f</U> = 2; }\n"),
+        _marked_case("forward-class-field-access",
+                     "class Reg;\nclass Reg { int <D>width</D> = 32; }\ndef R0 : Reg;\ndef q { int w = R0.<U>width</U>; }\n"),
+        _marked_case("forward-class-typed-field-access",
+                     "class Reg;\nclass Reg { int <D>width</D> = 32; }\nclass Bank<Reg r> { int w = r.<U>width</U>; }\n"),
+        _marked_case("forward-class-template-arguments",
+                     "class P<int n>;\nclass P<int n> { int <D>v</D> = n; }\ndef x : P<3> { int y = <U>v</U>; }\n"),
+        _marked_case("forward-class-in-header",
+                     "include \"fwd.td\"\nclass Reg { int <D>width</D> = 32; }\ndef R0 : Reg { int half = <U>width</U>; }\n",
+                     {"/w/fwd.td": "class Reg;\nclass RegList { list<Reg> regs = []; }\n"}),
+        _marked_case("forward-class-twice",
+                     "class Reg;\nclass Reg;\nclass Reg { int <D>width</D> = 32; }\nclass Wide : Reg { int twice = !add(<U>width</U>, width); }\n"),
+    ]
+
+
+# directed family: a LOCAL name (template argument, field, defvar, foreach iterator, multiclass argument) spelled like an
+# EARLIER def / defset: the innermost declaration wins (context.rs resolve_id: the scope chain first, then defs, then
+# defsets), and the program is well-formed (no type diagnostic: the local is an int, the def a record).
+_SHADOW_PRELUDE = ("class Reg<int enc> { int Enc = enc; }\ndef width : Reg<3>;\ndef lanes : Reg<4>;\n"
+                   "defset list<Reg> bank = {\n  def b0 : Reg<10>;\n  def b1 : Reg<11>;\n}\n")
+
+
+def shadowed_def_cases():
+    P = _SHADOW_PRELUDE
+    return [
+        _marked_case("local-over-def-template-argument",
+                     P + "class Vec<int <D>width</D>> { int Bits = !mul(<U>width</U>, 8); }\ndef v : Vec<4>;\n"),
+        _marked_case("local-over-def-field",
+                     P + "class Simd { int <D>lanes</D> = 4; int Total = !add(<U>lanes</U>, 1); }\ndef s : Simd;\n"),
+        _marked_case("local-over-def-foreach-iterator",
+                     P + "foreach <D>lanes</D> = [1, 2] in {\n  defvar width = !shl(1, lanes);\n"
+                         "  def : Reg<!add(width, <U>lanes</U>)>;\n}\n"),
+        _marked_case("local-over-def-defvar",
+                     P + "foreach lanes = [1, 2] in {\n  defvar <D>width</D> = !shl(1, lanes);\n"
+                         "  def : Reg<!add(<U>width</U>, lanes)>;\n}\n"),
+        _marked_case("local-over-defset-multiclass-argument",
+                     P + "multiclass Pair<int <D>bank</D>> {\n  def _lo : Reg<<U>bank</U>>;\n  def _hi : Reg<!add(bank, 1)>;\n}\n"
+                         "defm P : Pair<6>;\n"),
+        _marked_case("local-over-def-body-defvar",
+                     P + "def user { defvar <D>lanes</D> = 2; int n = !add(<U>lanes</U>, 1); }\n"),
+        _marked_case("local-over-def-operator-variable",
+                     P + "def user2 { list<int> l = !foreach(<D>width</D>, [1, 2], !add(<U>width</U>, 1)); }\n"),
+        _marked_case("local-over-def-in-included-file",
+                     "include \"regs.td\"\nclass Vec<int <D>width</D>> { int Bits = !mul(<U>width</U>, 8); }\ndef v : Vec<4>;\n",
+                     {"/w/regs.td": P}),
+        # control: where there is no local of that name, the def / defset IS what the name denotes
+        _marked_case("def-when-no-local",
+                     "class Reg<int enc> { int Enc = enc; }\ndef <D>width</D> : Reg<3>;\nclass Vec<int w> { Reg Unit = <U>width</U>; }\n"),
+    ]
+
+
+# directed family (C13 complete): a template argument WITHOUT default is left unbound while other arguments are passed BY NAME;
+# the site is the class / multiclass reference
+def named_missing_argument_cases():
+    regs = "class Reg<int enc, int width = 32, string prefix = \"r\"> { int E = enc; int W = width; string P = prefix; }\n"
+    triple = "class Triple<int a, int b, int c> { int Sum = !add(a, b, c); }\n"
+    shapes = [
+        ("named-missing-first-of-two", regs + "def r : <S>Reg<width = 16></S>;\n"),
+        ("named-missing-middle", triple + "def t : <S>Triple<1, c = 3></S>;\n"),
+        ("named-missing-first-named-only", triple + "def t : <S>Triple<c = 3, b = 2></S>;\n"),
+        ("named-missing-class-parent", regs + "class Sub : <S>Reg<prefix = \"x\"></S>;\n"),
+        ("named-missing-class-value", regs + "def q { Reg x = <S>Reg<width = 8></S>; }\n"),
+        ("named-missing-multiclass",
+         "class R<int v> { int V = v; }\nmulticlass M<int lo, int hi, int step = 1> {\n  def _lo : R<lo>;\n  def _hi : R<hi>;\n}\n"
+         "defm X : <S>M<hi = 7></S>;\n"),
+    ]
     out = []
     for key, marked in shapes:
-        text, pos = "", {}
-        i = 0
-        while i < len(marked):
-            for tag in ("<D>", "</D>", "<U>", "</U>"):
-                if marked.startswith(tag, i):
-                    pos[tag] = len(text.encode("utf-8"))
-                    i += len(tag)
-                    break
-            else:
-                text += marked[i]
-                i += 1
-        out.append({"key": key, "text": text, "use": [pos["<U>"], pos["</U>"]], "decl": [pos["<D>"], pos["</D>"]]})
+        text, pos = _strip_marks(marked)
+        out.append((key, text, [pos["<S>"], pos["</S>"]], "ArgMissing"))
     return out
+
+
+# well-formed counterparts: every argument without default is given, by position or by name
+def named_argument_cases():
+    regs = "class Reg<int enc, int width = 32, string prefix = \"r\"> { int E = enc; int W = width; string P = prefix; }\n"
+    triple = "class Triple<int a, int b, int c> { int Sum = !add(a, b, c); }\n"
+    return [("named-arguments-complete",
+             regs + triple + "def r0 : Reg<0>;\ndef r1 : Reg<1, 64>;\ndef r2 : Reg<2, prefix = \"x\">;\n"
+             "def r3 : Reg<enc = 3, width = 16>;\ndef t0 : Triple<1, 2, 3>;\ndef t1 : Triple<1, c = 3, b = 2>;\n")]
 
 
 def generate(rng, size=8, nfiles=None, probe=False, feats=None):
